@@ -393,7 +393,8 @@ theorem claim_of_val (s s' : MState) (rd : Reg) (w : Word) (v : AVal) (hz : s.re
     word (given the slot claims are true, `MemSound`). -/
 theorem load_transfer_sound (cn : CNode) (inReg : AMap Reg) (inMem : AMap MemLoc) (s s' : MState)
     (i : W String) (rd rs1 : W Reg) (imm : W Word) (t : RawTok)
-    (hn : cn.node = .load i rd rs1 imm t) (hrd : rd.val < 32) (hne : rs1.val ≠ rd.val)
+    (hn : cn.node = .load i rd rs1 imm t) (hwl : isWordLoad i.val = true) (hrd : rd.val < 32)
+    (hne : rs1.val ≠ rd.val)
     (hbase : ∀ c, AMap.get inReg rs1.val ≠ some (.vcsr c))
     (hz : s.reg 0 = 0#32) (he0 : s.entry 0 = 0#32) (hs : Sound s inReg) (hm : MemSound s inMem)
     (hstep : LoadStep s s' rd.val rs1.val imm.val) : Sound s' (nodeRegOut cn inReg inMem) := by
@@ -430,7 +431,7 @@ theorem load_transfer_sound (cn : CNode) (inReg : AMap Reg) (inMem : AMap MemLoc
     rw [hpre]
     intro k val hk0 hget
     have hgen : cn.node.genRegValue = if rd.val == 0 then none else some (rd.val, .mr rs1.val imm.val) := by
-      rw [hn]; rfl
+      rw [hn]; simp only [Node.genRegValue, hwl, if_true]
     rw [hgen] at hget
     by_cases hk : k = rd.val
     · subst hk
@@ -452,7 +453,7 @@ theorem load_transfer_sound (cn : CNode) (inReg : AMap Reg) (inMem : AMap MemLoc
   simp only []
   have hexp_sound : SoundNZ s' (ruleExpandAddressForLoad cn.node (preRules cn inReg) inReg) := by
     rw [hn]
-    simp only [ruleExpandAddressForLoad]
+    simp only [ruleExpandAddressForLoad, hwl, Bool.not_true, Bool.false_eq_true, if_false]
     split
     · exact soundNZ_insert s' _ _ _ hP (fun _ => trivial)
     · exact soundNZ_insert s' _ _ _ hP (fun _ => trivial)
@@ -462,7 +463,7 @@ theorem load_transfer_sound (cn : CNode) (inReg : AMap Reg) (inMem : AMap MemLoc
     intro k hk
     rw [hpre]
     have hgen : cn.node.genRegValue = if rd.val == 0 then none else some (rd.val, .mr rs1.val imm.val) := by
-      rw [hn]; rfl
+      rw [hn]; simp only [Node.genRegValue, hwl, if_true]
     rw [hgen]
     split
     · simp only [insertGen]; rw [hkilled]; simp [hk]
@@ -471,7 +472,7 @@ theorem load_transfer_sound (cn : CNode) (inReg : AMap Reg) (inMem : AMap MemLoc
       AMap.get (ruleExpandAddressForLoad cn.node (preRules cn inReg) inReg) k = AMap.get inReg k := by
     intro k hk
     rw [hn]
-    simp only [ruleExpandAddressForLoad]
+    simp only [ruleExpandAddressForLoad, hwl, Bool.not_true, Bool.false_eq_true, if_false]
     split
     · rw [AMap.get_insert_ne _ k rd.val _ (fun e => hk e.symm)]; exact hPframe k hk
     · rw [AMap.get_insert_ne _ k rd.val _ (fun e => hk e.symm)]; exact hPframe k hk
@@ -487,7 +488,7 @@ theorem load_transfer_sound (cn : CNode) (inReg : AMap Reg) (inMem : AMap MemLoc
           some (.mr rs1.val imm.val) := by
     intro hrd0
     rw [hn]
-    simp only [ruleExpandAddressForLoad]
+    simp only [ruleExpandAddressForLoad, hwl, Bool.not_true, Bool.false_eq_true, if_false]
     split
     · rename_i r off heq
       exact Or.inl ⟨r, off, heq, AMap.get_insert_self _ _ _⟩
@@ -496,7 +497,7 @@ theorem load_transfer_sound (cn : CNode) (inReg : AMap Reg) (inMem : AMap MemLoc
     · right; right
       rw [hpre]
       have hgen : cn.node.genRegValue = if rd.val == 0 then none else some (rd.val, .mr rs1.val imm.val) := by
-        rw [hn]; rfl
+        rw [hn]; simp only [Node.genRegValue, hwl, if_true]
       have : (rd.val == 0) = false := by simpa using hrd0
       rw [hgen]
       simp only [this, Bool.false_eq_true, if_false, insertGen]
@@ -638,7 +639,7 @@ inductive MStep (g : Cfg) (i : Nat) (s s' : MState) : Prop where
       (∀ r, s'.reg r = s.reg r) → s'.entry = s.entry → s'.addr = s.addr →
       (∀ a, s'.mem a = if a = s.reg 2 + imm.val then s.reg rs2.val else s.mem a) → MStep g i s s'
   | load (inst : W String) (rd rs1 : W Reg) (imm : W Word) (t : RawTok) :
-      (g.get i).node = .load inst rd rs1 imm t → rd.val < 32 → rs1.val ≠ rd.val →
+      (g.get i).node = .load inst rd rs1 imm t → isWordLoad inst.val = true → rd.val < 32 → rs1.val ≠ rd.val →
       (∀ c, AMap.get (g.get i).regIn rs1.val ≠ some (.vcsr c)) →
       LoadStep s s' rd.val rs1.val imm.val → MStep g i s s'
 
@@ -703,10 +704,10 @@ theorem mstep_out_sound (g : Cfg) (V : List Nat) (hf : GoodFactsM g V) (i : Nat)
     · exact memSound_of_get_eq s' _ _ (hf.eqMemOut i hi)
         (mem_store_sound (g.get i) _ _ _ s s' inst rs1 rs2 imm t cur hn hsp hcur (hf.wfMemIn i) ihs ihm
           ihz ihe hentry haddr hreg hstore)
-  | load inst rd rs1 imm t hn hrd hne hbase hl =>
+  | load inst rd rs1 imm t hn hwl hrd hne hbase hl =>
     refine ⟨?_, ?_, by rw [hl.entry]; exact ihe, by rw [hl.zero]; exact ihz⟩
     · exact sound_of_get_eq s' _ _ (hf.eqOut i hi)
-        (load_transfer_sound (g.get i) _ _ s s' inst rd rs1 imm t hn hrd hne hbase ihz ihe ihs ihm hl)
+        (load_transfer_sound (g.get i) _ _ s s' inst rd rs1 imm t hn hwl hrd hne hbase ihz ihe ihs ihm hl)
     · apply memSound_of_get_eq s' _ _ (hf.eqMemOut i hi)
       have hc : (g.get i).node.callsTo = none := by rw [hn]; rfl
       have hec : (g.get i).node.isEcall = false := by rw [hn]; rfl
